@@ -26,6 +26,11 @@ pub broadcast axiom fn axiom_u32_to_string(n: &u32, res: String)
     requires #[trigger] to_string_from_display_ensures::<u32>(n, res),
     ensures res@ == u32_text(*n);
 
+// TRUSTED[string-to-string]: `s.to_string()` of a String is a String with the same text (std: Display for String writes the text).
+pub broadcast axiom fn axiom_string_to_string(s: &String, res: String)
+    requires #[trigger] to_string_from_display_ensures::<String>(s, res),
+    ensures res@ == s@;
+
 // TRUSTED[u64-to-string-decimal]: `n.to_string()` of a u64 is its decimal text without sign or padding (std: Display for
 // integers; vstd leaves to_string_from_display_ensures uninterpreted for integers).
 pub broadcast axiom fn axiom_u64_to_string(n: &u64, res: String)
